@@ -93,11 +93,17 @@ def _c17_trace(inst):
         if rng.random() < 0.35:
             return pool[int(rng.integers(0, len(pool)))].copy()
         return rand_resid(rng, m)
+    sc = None
+    if inst.get("scaling"):
+        sc = (np.round(rng.normal(size=n) * 4.0) / 4.0, np.array([float(v) for v in rng.choice([0.5, 2.0, 4.0], size=n)]))   # (shift, scale), dyadic
+
+    def user(xs_abs):          # internal absolute coordinates -> user's coordinates (where the objective and the regulariser live)
+        return xs_abs if sc is None else sc[0] + xs_abs * sc[1]
     with warnings.catch_warnings(), np.errstate(all="ignore"):
         warnings.simplefilter("ignore")
         x0 = np.round(rng.normal(size=n) * 4.0) / 4.0
-        r0 = D.evaluate(x0, resid())
-        M = D.Model(cap, x0.copy(), r0, -1e20 * np.ones(n), 1e20 * np.ones(n), [], 1, h=h, do_logging=False)
+        r0 = D.evaluate(user(x0), resid())
+        M = D.Model(cap, x0.copy(), r0, -1e20 * np.ones(n), 1e20 * np.ones(n), [], 1, h=h, do_logging=False, scaling_changes=sc)
         ops = 0
         while ops < inst["len"]:
             ops += 1
@@ -107,7 +113,7 @@ def _c17_trace(inst):
                 # replace (or, while growing, append) a point
                 k = npt if (npt < M.num_pts and rng.random() < 0.7) else int(rng.integers(0, npt))
                 xs = np.round(rng.normal(size=n) * 8.0) / 8.0 + 0.125 * ops
-                r = D.evaluate(M.xbase + xs, resid())
+                r = D.evaluate(user(M.xbase + xs), resid())
                 M.change_point(k, xs, r, D.nx)
             elif u < 0.52:
                 k = int(rng.integers(0, npt))
@@ -116,11 +122,11 @@ def _c17_trace(inst):
                     # resample the stored point: same x, same point number as recorded for that slot is required by the
                     # identity class, so resampling is only done for the most recently evaluated point
                     if int(M.eval_num[k]) == D.nx:
-                        r = D.evaluate(xk, resid(), newpoint=False)
+                        r = D.evaluate(user(xk), resid(), newpoint=False)
                         M.add_new_sample(k, r)
             elif u < 0.60 and npt == M.num_pts and M.num_pts < cap + 2:
                 xs = np.round(rng.normal(size=n) * 8.0) / 8.0 - 0.125 * ops
-                r = D.evaluate(M.xbase + xs, resid())
+                r = D.evaluate(user(M.xbase + xs), resid())
                 M.add_new_point(xs, r, D.nx)
             elif u < 0.70 and npt >= 2:
                 k1, k2 = [int(v) for v in rng.choice(npt, size=2, replace=False)]
@@ -131,7 +137,7 @@ def _c17_trace(inst):
                 if rng.random() < 0.5:
                     # save a freshly evaluated point (as the solver does on exits)
                     xs = np.round(rng.normal(size=n) * 8.0) / 8.0
-                    r = D.evaluate(M.xbase + xs, resid())
+                    r = D.evaluate(user(M.xbase + xs), resid())
                     M.save_point(M.xbase + xs, r, 1, D.nx, x_in_abs_coords=True)
                 else:
                     # save the incumbent exactly as Controller.soft_restart does (passing the model's own views)
